@@ -528,6 +528,14 @@ theorem search_alternatives_conflict (c : Ctx) (atom prev bond len : Nat) (hashe
     brs.Pairwise Conflict :=
   plan_conflict h
 
+/-- soundness where the whole-`kekule()` model (`Model/C05Full.lean: kekuleFull`, driver op `kekf`) uses the search: the
+    paths it writes into the molecule — the first yield of every component — are Kekulé forms of their components
+    (components as `GraphOK`, without ambiguous atoms) -/
+theorem kekule_full_writes_kekule_forms (buf : Nat) (cs : List C05F.Comp) (ys : List Path)
+    (hc : ∀ c ∈ cs, GraphOK c.rings ∧ c.pyr = []) (h : C05F.firstYields buf cs = .ok ys) :
+    List.Forall₂ (fun c y => KekuleFormOf c.rings c.db y) cs ys :=
+  firstYields_sound buf cs ys hc h
+
 /-- naphthalene as `__kekule_full` builds the component dict -/
 def naphthaleneRings : Adj :=
   [(1, [2, 10]), (2, [1, 3]), (3, [2, 4]), (4, [3, 5]), (5, [4, 6, 10]), (6, [5, 7]), (7, [6, 8]), (8, [7, 9]),
